@@ -10,6 +10,8 @@ import os
 import re
 import sys
 
+CANARIES = {'Q4.pipeline': 1, 'Q5.skeletons': 1, 'H1.text': 1, 'I5.ampersand': 1, 'P1.two-candidates': 1, 'L1.raw_text': 1,
+            'L2.inline': 1, 'L2.code': 1}
 ROOT = os.path.dirname(os.path.dirname(os.path.abspath(__file__)))
 
 
@@ -28,8 +30,16 @@ def parse_confirmed(path):
     out['quick_check_with_change'] = 'exit %s%s' % (m.group(1), ' (VIOLATION)' if 'VIOLATION property=' in txt else '') if m else '?'
     m = re.search(r'^(C\d+ \w+: obligations=.*)$', txt, re.M)
     out['check_summary'] = m.group(1) if m else '?'
-    lem = re.search(r'== lemmas that refuted \(count\)\n((?:\s+\d+ \S+\n)*)', txt)
-    out['lemmas_refuted'] = {b: int(a) for a, b in re.findall(r'\s+(\d+) (\S+)', lem.group(1))} if lem else {}
+    lem = re.search(r'== lemmas that refuted \(count(, canaries excluded)?\)\n((?:\s+\d+ \S+\n)*)', txt)
+    ref = {b: int(a) for a, b in re.findall(r'\s+(\d+) (\S+)', lem.group(2))} if lem else {}
+    if lem and not lem.group(1):
+        # records written before confirm_record.sh filtered them out: every run refutes the canaries
+        for k, n in CANARIES.items():
+            if k in ref:
+                ref[k] -= n
+                if ref[k] <= 0:
+                    del ref[k]
+    out['lemmas_refuted'] = ref
     m = re.search(r'== first reproduced counterexample\n(.*(?:\n.*)?)', txt)
     out['first_counterexample'] = m.group(1).strip()[:500] if m else ''
     return out
